@@ -1,7 +1,9 @@
 CONSTANTS
   Clients = {1, 2, 3}
   Buffers = {1, 2}
+  Cap = 3
   Swapped = FALSE
+  KeepLen = FALSE
   MaxResend = 1
 INIT Init
 NEXT Next
